@@ -65,6 +65,8 @@ BODIES = {
     "B4": {"inputs": ["a", "b", "c", "d"], "defaults": {"d": "dd"}, "outputs": ["o"], "sym": {"o": "g"}},
     "B3": {"inputs": ["a", "b", "c"], "defaults": {}, "outputs": ["p", "q"], "sym": {"p": "p", "q": "q"}},
     "BC": {"inputs": ["a", "b", "c"], "defaults": {}, "outputs": ["a", "r"], "sym": {"a": "h", "r": "r"}},
+    "B12": {"inputs": [f"x{i}" for i in range(12)], "defaults": {"x11": "e"}, "outputs": ["o", "o2"],
+            "sym": {"o": "w", "o2": "v"}},
 }
 
 
@@ -414,6 +416,55 @@ def gen_cases(rng, tier):
             if x not in case["init"]:
                 case["init"][x] = x.upper()
         yield case
+
+    # 5a. sizes beyond one digit: 10, 11, 12, 21, 101 rows (row_10 / item_10 / body_10 sort before row_2 as
+    #     strings; 101 reaches three digits), by one long list, by a zip, and by a product; both forms; re-run
+    #     to another multi-digit size on the same node
+    big = [(10, [("B3", "ibb", {"a": 10}), ("B3", "iib", {"a": 2, "b": 5}), ("B4", "zzbb", {"a": 10, "b": 13})]),
+           (11, [("B3", "ibb", {"a": 11}), ("B4", "bzzb", {"b": 11, "c": 11}), ("B3", "bbi", {"c": 11})]),
+           (12, [("B3", "izz", {"a": 1, "b": 12, "c": 14}), ("B4", "iibb", {"a": 3, "b": 4}),
+                 ("B3", "iiz", {"a": 2, "b": 3, "c": 2})]),
+           (21, [("B3", "iib", {"a": 3, "b": 7}), ("B4", "zbbb", {"a": 21}), ("B3", "izb", {"a": 7, "b": 3})]),
+           (101, [("B3", "ibb", {"a": 101}), ("B4", "bbzz", {"c": 101, "d": 150})])]
+    for n_rows, layouts_n in big:
+        for body, roles, lens in layouts_n:
+            for form_df in (True, False):
+                if quick and n_rows == 101 and not form_df and roles != "ibb":
+                    continue
+                others = [v for v in (10, 11, 12, 21) if v != n_rows]
+                first = sorted(lens)[0]
+                lens2 = dict(lens)
+                lens2[first] = rng.choice(others) if len(lens) == 1 else max(1, lens[first] - 1)
+                executor = (rng.random() < 0.3) and n_rows <= 21
+                case = _mk_case(rng, body, tuple(roles), form_df, None, True, rng.choice(["for_node", "cls"]),
+                                executor, [lens, lens2] if n_rows <= 21 else [lens])
+                assert _n_rows(case["iter"], case["zip"], lens) == n_rows
+                yield case
+
+    # 5a'. more than ten looped inputs / columns (labels x10, x11 sort before x2 as strings)
+    for i in range(10 if quick else 60):
+        inputs = BODIES["B12"]["inputs"]
+        kind = i % 5
+        if kind == 0:
+            roles = ["z"] * 12
+        elif kind == 1:
+            roles = ["i", "i"] + ["z"] * 10
+        elif kind == 2:
+            roles = ["z"] * 11 + ["b"]
+        elif kind == 3:
+            roles = [rng.choice("zzb") for _ in range(12)]
+            roles[rng.randrange(12)] = "i"
+        else:
+            roles = ["b"] * 12
+            for j in rng.sample(range(12), 3):
+                roles[j] = "i"
+            roles[rng.choice([10, 11])] = "z"
+        looped = [k for k, r in zip(inputs, roles) if r in "iz"]
+        n_it = sum(1 for r in roles if r == "i")
+        lens_seq = [{k: rng.randint(1, 2 if n_it > 2 else 3) for k in looped} for _ in range(2)]
+        colmap = rng.choice([None, {"o": "x12"}, {"o2": "a"}])
+        yield _mk_case(rng, "B12", tuple(roles), rng.random() < 0.6, colmap, True, "for_node",
+                       rng.random() < 0.2, lens_seq, bc_list_p=0.0)
 
     # 5b. body nodes on REAL executors (threads, processes): the completion order is whatever it is
     for i in range(24 if quick else 160):
